@@ -43,6 +43,7 @@ def install(ctx, repo, probes):
         ctx.target("decimal/" + u)
     for how in DERIVE:
         ctx.target("derived/" + how)
+    ctx.target("derived/from-hashed-operand")
     ctx.target("alt/date-only/cal", "alt/date-only/ord",
                "alt/date-only/month", "alt/date-only/year")
     ctx.target("weeks", "negative", "empty", "alt/ext", "alt/basic",
@@ -110,6 +111,11 @@ def run_case(ctx, repo, case):
             # the same for durations that come out of arithmetic (all of
             # these keep one sign)
             n = case.get("n", 2)
+            if case.get("hashed"):
+                # the operand has been a dictionary key / set member before
+                hash(d)
+                {d: 1}
+                ctx.cls("derived/from-hashed-operand")
             try:
                 d = {"x0": lambda: d * 0, "d-d": lambda: d - d,
                      "xn": lambda: d * n, "nx": lambda: n * d,
@@ -445,6 +451,8 @@ def workload(ctx, repo):
                 how = "x0"
             case = {"op": "roundtrip", "d": kw, "derive": how,
                     "n": rng.choice((1, 2, 3, 5, 7))}
+            if (k // 3) % 2:
+                case["hashed"] = True
             ctx.case = case
             run_case(ctx, repo, case)
         if k % 4 < 3:
